@@ -643,6 +643,8 @@ static void alloc_one(size_t n, const std::string &replay)
     viol("aligned_allocator::allocate|no length_error for a request above max_size()", replay, d);
   if (!exceeds && got == "length_error")
     viol("aligned_allocator::allocate|length_error for a request within max_size()", replay, d);
+  if (p && (unsigned __int128)n * sizeof(T) > ((unsigned __int128)1 << 47))
+    viol("aligned_allocator::allocate|non-null pointer for a request larger than any address space", replay, d);
   if (p) {
     if ((uintptr_t)p % 64 != 0)
       viol("aligned_allocator::allocate|pointer not 64-byte aligned", replay, d);
@@ -702,6 +704,42 @@ static void alloc_part()
       vr::sample("aligned_allocator<sizeof " + std::to_string(VEC_SIZES[ti]) + ">::allocate(n) for " + std::to_string(g.size()) + " n, e.g. max_size()+1 = "
             + std::to_string((~(size_t)0) / VEC_SIZES[ti] + 1),
         "alloc");
+  });
+}
+
+// =====================================================================================
+// sizes no allocator can satisfy: the result must be null ("null or usable for the full size")
+// =====================================================================================
+static const size_t HUGE_SIZES[] = {~(size_t)0, ~(size_t)0 - 1, ~(size_t)0 - 63, ~(size_t)0 - 4095, (~(size_t)0) / 2 + 1, (size_t)1 << 62, (size_t)1 << 48};
+static void huge_one(size_t size, size_t align, const std::string &replay)
+{
+  void *p = memory::alignedMalloc(size, align);
+  vr::stat("states");
+  vr::stat("transitions");
+  vr::stat("traces");
+  vr::outcome(std::string("huge:") + (p ? "ptr" : "null"));
+  if (vr::replaying())
+    printf("alignedMalloc(%zu, %zu) -> %p ; want null (no block of that size can exist)\n", size, align, p);
+  if (p) {
+    char d[200];
+    snprintf(d, sizeof d, "alignedMalloc(%zu, %zu) returned %p: cannot be usable for the full size", size, align, p);
+    viol("alignedMalloc|non-null pointer for a size larger than any address space", replay, d);
+    memory::alignedFree(p);
+  }
+}
+static void huge_part()
+{
+  vr::run_sharded(1, [&](int, long long resume_after) {
+    long long idx = 0;
+    for (size_t size : HUGE_SIZES)
+      for (size_t align : ALIGNS) {
+        if (idx++ <= resume_after)
+          continue;
+        std::string replay = "huge:" + std::to_string(size) + ":" + std::to_string(align);
+        vr::begin_case(idx - 1, "alignedMalloc|huge size", replay);
+        huge_one(size, align, replay);
+      }
+    vr::sample("alignedMalloc(size, align) for 7 sizes between 2^48 and SIZE_MAX x 13 alignments: must return null", "huge");
   });
 }
 
@@ -792,6 +830,9 @@ static int replay_one(const std::string &r)
     if (ti < 0)
       return 2;
     alloc_dispatch(ti, strtoull(arg.c_str() + c2 + 1, nullptr, 10), r);
+  } else if (kind == "huge") {
+    size_t c2 = arg.find(':');
+    huge_one(strtoull(arg.c_str(), nullptr, 10), strtoull(arg.c_str() + c2 + 1, nullptr, 10), r);
   } else if (kind == "reuse") {
     replay_reuse(arg);
   } else if (kind == "leak") {
@@ -837,6 +878,7 @@ int main(int argc, char **argv)
   Alphabet full = make_alphabet("full", SIZES, 10, ALIGNS, 13);
   Alphabet deep = make_alphabet("deep", DSIZES, 4, DALIGNS, 4);
   alloc_part();
+  huge_part();
   vec_part(vec_d);
   raw_part(deep, deep_d);
   raw_part(full, full_d);
